@@ -364,10 +364,34 @@ def check(cfg, ops, seed, counters):
                     mv['rr_name'] = 'mv%d-g2' % k_
                 moved += int(s2.step(mv).ok)
             if moved:
+                # the boot files read through every name after the edits that move them and before
+                # anything lays the image out again: the bytes the re-mastered image then stores
+                reads2 = {}
+                if seed % 4 == 0:
+                    import io as _io2
+                    for e_ in s2.model.boot['entries']:
+                        for ns_, p_ in s2.model.names_of(e_['cid']):
+                            if ns_ == 'udf' or (ns_, p_) in reads2:
+                                continue
+                            buf = _io2.BytesIO()
+                            try:
+                                s2.iso.get_file_from_iso_fp(buf, **{'%s_path' % ns_: p_})
+                                reads2[(ns_, p_)] = buf.getvalue()
+                                counters['live_bootfile_reads_after_move'] = counters.get('live_bootfile_reads_after_move', 0) + 1
+                            except Exception as ex:
+                                vio.append({'key': 'bootfile:%s:live-read-raises:%s' % (ns_, type(ex).__name__), 'detail': '%s after reopen+edits: %s' % (p_, ex)})
                 img3, oc3 = s2.write()
                 if not oc3.ok:
                     vio.append({'key': 'write-raises:%s@%s' % (oc3.exc_class, oc3.exc_where), 'detail': 'after reopen+edits: %s' % oc3.exc_msg})
                 else:
+                    if reads2 and not s2.model.relocation_active():
+                        from harness.indep import ecma119 as _e2
+                        dec3 = _e2.decode(img3.getvalue())
+                        for (ns_, p_), got in reads2.items():
+                            vol = {'iso': dec3.pvd, 'joliet': dec3.joliet}.get(ns_)
+                            node = vol.tree.get(p_) if vol is not None else None
+                            if node is not None and node.kind == 'file' and got != _e2.read_file(img3.getvalue(), node):
+                                vio.append({'key': 'bootfile:%s:live-read-differs:after-move' % ns_, 'detail': '%s read after reopen+edits (%d bytes) differs from the bytes the re-mastered image stores' % (p_, len(got))})
                     s3, oc4 = s2.reopen(img3.getvalue())
                     v3, _et3 = check_image(img3.getvalue(), s2.model, s3.iso if oc4.ok else None, counters)
                     if not oc4.ok:
